@@ -545,6 +545,16 @@ class IMAPUserServer:
         #
         self.active_mailboxes_lock = asyncio.Lock()
 
+        # Held while a mailbox (and its children) is being renamed and while
+        # `find_all_folders()` walks the mail directory: a RENAME works by
+        # way of a temporary symbolic link from the new name to the old one,
+        # and the walk follows symbolic links - it would add the
+        # half-renamed tree to the db under its new names, and the RENAME
+        # then fails with 'UNIQUE constraint failed: mailboxes.name' leaving
+        # both trees behind.
+        #
+        self.folder_tree_lock = asyncio.Lock()
+
         # We also have a dict of asyncio.Event's for mailboxes that are "being
         # activated". If multiple tasks want a mailbox and it has not been
         # activated we use these asyncio.Events so that only one task actually
@@ -1124,7 +1134,7 @@ class IMAPUserServer:
 
         maildir_root_len = len(str(self.maildir)) + 1
         found_folders = 0
-        async with asyncio.TaskGroup() as tg:
+        async with self.folder_tree_lock, asyncio.TaskGroup() as tg:
             for root, dirs, _files in self.maildir.walk(follow_symlinks=True):
                 for dir in dirs:
                     dirname = str(root / dir)[maildir_root_len:]
